@@ -205,6 +205,13 @@ class Judge:
             return None
         if isinstance(t, ast.Call) and isinstance(t.func, ast.Name) and t.func.id in ("bool", "len", "list") and t.args:
             return self._atom_empty(t.args[0], site, targets)
+        if isinstance(t, ast.NamedExpr):
+            return self._atom_empty(t.value, site, targets, _depth)  # `(text := render(field))`: the truth of the rendered text
+        if isinstance(t, ast.Call) and isinstance(t.func, ast.Name) and t.func.id in (
+                "format_trivia", "trim_trailing_layout_newline", "trim_leading_layout_trivia", "format_interstitial_trivia",
+                "format_inline_comment_suffix") and _depth < 4:
+            # the rendering of a trivia field is empty: nothing of the field is lost by leaving it out
+            return "false" if any(self._atom_empty(a, site, targets, _depth + 1) == "false" for a in t.args) else None
         if isinstance(t, ast.BoolOp) and isinstance(t.op, ast.Or):
             # `a or b or c` is falsy only when every operand is: falsy means the targets among them are empty
             return "false" if any(self._atom_empty(v, site, targets) == "false" for v in t.values) else None
